@@ -155,24 +155,32 @@ def run_split_combine(env, sh):
         secret = env.P.i2b(env.int('secret4', 4) << win[0], 16)
     draws = []
 
+    def provider(m):
+        if win is None:
+            b = env.bytes('coef%d' % len(draws), m)
+        else:
+            b = env.P.i2b(env.int('coef4_%d' % len(draws), 4) << win[1], m)
+        draws.append(b)
+        return b
+    # the module draws coefficients through its global `rng` (= Crypto.Random.get_random_bytes)
     if env.sym:
         from vlib.pysym import natives
-
-        def provider(m):
-            if win is None:
-                b = env.bytes('coef%d' % len(draws), m)
-            else:
-                b = env.P.i2b(env.int('coef4_%d' % len(draws), 4) << win[1], m)
-            draws.append(b)
-            return b
         natives.Tape.provider = provider
+    else:
+        real_rng, ss.rng = ss.rng, provider
     try:
-        shares = ss.Shamir.split(k, n, secret, ssss)
+        try:
+            shares = ss.Shamir.split(k, n, secret, ssss)
+        except ValueError:
+            env.check(False, 'split() accepts every 2 <= k <= n')
+            return
     finally:
         if env.sym:
             natives.Tape.provider = None
+        else:
+            ss.rng = real_rng
     env.check(len(shares) == n and [int(i) for i, _ in shares] == list(range(1, n + 1)), 'n shares with indexes 1..n')
-    if env.sym:
+    if True:
         env.check(len(draws) == k - 1 and all(len(d) == 16 for d in draws), 'exactly k-1 coefficients, each a fresh 16-byte RNG draw')
         # share i == Horner evaluation of  c_0 x^(k-1) + ... + c_(k-2) x + secret  at x = i  (+ x^k for ssss)
         P = env.P
